@@ -12,7 +12,7 @@ From ClapModel Require Import Derive.DeriveCmd Derive.DeriveArgs Derive.DerivePa
 From ClapModel Require Import Parse.Validator ParseProofs.Relations ParseProofs.ValidateTotal Derive.DerivePost Derive.DerivePostEx.
 From ClapModel Require Import ParseProofs.Dispatch Derive.LoopInv Derive.DeriveFlat Derive.DeriveTotal Derive.DeriveTotalEx.
 From ClapModel Require Import ParseProofs.KindSound Derive.DeriveUpdateLine Derive.DeriveUpdateLineEx Derive.DeriveDec Derive.DeriveKeys Derive.DerivePos.
-From ClapModel Require Import Derive.DeriveEnum Derive.DeriveEnumField Derive.DeriveEnumEx Derive.DeriveAbsent Derive.DeriveOptBool Derive.DeriveOptFlatten Derive.DeriveEnumPos Derive.DeriveRound5More.
+From ClapModel Require Import Derive.DeriveEnum Derive.DeriveEnumField Derive.DeriveEnumEx Derive.DeriveAbsent Derive.DeriveOptBool Derive.DeriveOptFlatten Derive.DeriveEnumPos Derive.DeriveRound5More Derive.DeriveOptFlattenNone.
 From Coq Require Import ZArith List.
 Import ListNotations.
 Open Scope N_scope.
@@ -1114,3 +1114,40 @@ Print Assumptions C15_optbool_as_flag_refuted.
 Theorem C15_enum_names_disjoint_nonvacuous : names_disjoint false ex_henum /\ names_disjoint true ex_henum.
 Proof. split; [exact ex_henum_disjoint_cs|exact ex_henum_disjoint_ci]. Qed.
 Print Assumptions C15_enum_names_disjoint_nonvacuous.
+
+(** * Round 5: an optional flatten is [None] when the line names none of its members, ALL argv (Derive/DeriveOptFlattenNone.v) *)
+
+(** [gen_constructor] builds [Option<Inner>] as [Some] iff [contains_id(Inner's group)]; the group gets an entry only from an
+    EXPLICIT occurrence of one of its members (groups are started for explicit sources only; the defaults phase appends entries
+    of arguments only).  For every struct of argument fields and flattened structs whose command passes clap's assertions and
+    every line: if no token names an argument that belongs to the group [gid] (C10's [occurs]), the value the derived parser
+    returns holds [None] for the optional flatten with that group id ([flatten_at]: lookup through required flattens).
+    C10 [accepted_faithful], C06 [phase_order] / [cmdline_phase_all_cl] / [add_defaults_frame], then [extract_absent_group]. *)
+Theorem C15_unoccurring_optflatten_is_none : forall d bin toks vs gid,
+  flat_nodes (d_nodes d) = true -> valid (UnparseTree.with_bin (derive_cmd d) bin) = true ->
+  find_group (built d bin) gid <> None ->
+  (forall a, In a (c_args (built d bin)) -> In gid (groups_for_arg (built d bin) (a_id a)) -> ~ occurs (built d bin) toks a) ->
+  derived_parse d (bin :: toks) = PValue vs ->
+  forall x, flatten_at (d_nodes d) vs gid = Some x -> x = DOptStruct None.
+Proof. exact unoccurring_optflatten_is_none. Qed.
+Print Assumptions C15_unoccurring_optflatten_is_none.
+
+(** Non-vacuity: [{ t: Option<String>, #[command(flatten)] opt: Option<Inner { e: Option<u8>, g: Option<u8> }> }] on [prog --tt x]:
+    the group "I" exists, none of its arguments is named, [opt] is [None]; naming [e] ([prog --ee 9]) makes it [Some]. *)
+Theorem C15_unoccurring_optflatten_nonvacuous :
+  flat_nodes (d_nodes OptFlattenEx.d) = true
+  /\ valid (UnparseTree.with_bin (derive_cmd OptFlattenEx.d) OptFlattenEx.b_prog) = true
+  /\ find_group (built OptFlattenEx.d OptFlattenEx.b_prog) OptFlattenNoneEx.gidI <> None
+  /\ (forall a, In a (c_args (built OptFlattenEx.d OptFlattenEx.b_prog)) ->
+                In OptFlattenNoneEx.gidI (groups_for_arg (built OptFlattenEx.d OptFlattenEx.b_prog) (a_id a)) ->
+                ~ occurs (built OptFlattenEx.d OptFlattenEx.b_prog) OptFlattenNoneEx.toks2 a)
+  /\ derived_parse OptFlattenEx.d (OptFlattenEx.b_prog :: OptFlattenNoneEx.toks2) = PValue OptFlattenNoneEx.v2
+  /\ flatten_at (d_nodes OptFlattenEx.d) OptFlattenNoneEx.v2 OptFlattenNoneEx.gidI = Some (DOptStruct None)
+  /\ derived_parse OptFlattenEx.d [OptFlattenEx.b_prog; [45;45;101;101]; [57]]
+       = PValue [DOpt None; DOptStruct (Some [DOpt (Some (SvInt 9%Z)); DOpt None])].
+Proof.
+  destruct OptFlattenNoneEx.ex_facts2 as (H1 & H2 & H3 & H4).
+  split; [exact H1|]. split; [exact H2|]. split; [exact OptFlattenNoneEx.g_group|].
+  split; [exact OptFlattenNoneEx.ex_members_unnamed|]. split; [exact H3|]. split; [exact H4|exact OptFlattenNoneEx.ex_named].
+Qed.
+Print Assumptions C15_unoccurring_optflatten_nonvacuous.
